@@ -189,6 +189,16 @@ func (mdb *memdb) deleteBodyID(bodyid uint64) {
 	mdb.ids = append(mdb.ids[:i], mdb.ids[i+1:]...)
 }
 
+// decrement the count of a field, dropping the field when no annotation has it anymore
+// so the in-memory field list matches what a scan of the store gives.
+func (mdb *memdb) decrementField(field string) {
+	if mdb.fields[field] <= 1 {
+		delete(mdb.fields, field)
+	} else {
+		mdb.fields[field]--
+	}
+}
+
 // add an annotation to the in-memory DB in batch mode assuming ids are sorted later
 func (mdb *memdb) addAnnotation(bodyid uint64, annotation NeuronJSON) {
 	mdb.data[bodyid] = annotation
